@@ -3,6 +3,19 @@
 import json, sys
 pid, wt, outdir = sys.argv[1], sys.argv[2], sys.argv[3]
 n = sys.argv[4] if len(sys.argv) > 4 else "3"
+first = 1
+avoid = ""
+if len(sys.argv) > 5:
+    import glob, os
+    prev = []
+    for d in sorted(glob.glob(os.path.join(sys.argv[5], pid + "-*"))):
+        try:
+            prev.append("  - " + json.load(open(os.path.join(d, "meta.json")))["summary"][:300])
+        except Exception:
+            pass
+    first = len(prev) + 1
+    if prev:
+        avoid = "\nAn earlier round already produced the following changes; produce DIFFERENT ones (other files, other mechanisms, other clauses of the property):\n" + "\n".join(prev) + "\n"
 p = [json.loads(l) for l in open('/verif/properties.jsonl') if json.loads(l)['id'] == pid][0]
 print(f"""You are helping to evaluate a verification effort by playing the role of a developer who introduces a subtle regression.
 
@@ -25,8 +38,10 @@ YOUR TASK: produce {n} INDEPENDENT, DIFFERENT changes to the MPIR sources (each 
   (c) looks like something a developer could plausibly commit (an optimisation, refactoring, clean-up, a 'simplification', a micro-fix that is wrong in a corner), and is small (a few lines up to a few dozen),
   (d) needs something SPECIFIC to manifest: a particular interleaving, a fault at a particular point, a multi-step sequence of operations, an unusual input or size, a rarely-taken branch, a non-default build configuration named in the property, or two cooperating sites that each look fine alone. Not something ordinary use would expose at once.
 Make the {n} changes differ in mechanism and in location (different files / different parts of the property), so that they exercise different parts of a checker.
+{avoid}
+Number the deliverable directories starting at k = {first}.
 
-For each change k = 1..{n} deliver, in {outdir}/{pid}-k/ :
+For each change k = {first}..{first + int(n) - 1} deliver, in {outdir}/{pid}-k/ :
   - patch.diff    : `git -C {wt} diff` of exactly that change against the clean tree (verify it applies with `git apply --check` on a clean tree),
   - a demonstration: a small C (or C++/shell) program or script `demo.*` plus `run.sh` that builds it against the tree's library and exits NON-ZERO (printing what went wrong) when the change is applied and exits 0 on the clean tree. If the violation only exists in a configuration the pinned build does not compile (another CPU's kernel, C++ wrapper, malloc-reentrant temporaries, --enable-assert, fat build...), the demo may compile just the affected file(s) itself with the needed flags, or assemble the kernel and call it directly; say so.
   - meta.json     : {{"property": "{pid}", "summary": "...what the change does...", "needs": "...what is required for it to manifest...", "files": [...], "ran": ["commands you ran and their outcome: build ok, 198 PASS, demo fails with patch, demo passes without"]}}
